@@ -562,6 +562,38 @@ theorem partial_le_one (n : ℕ) (a b r : ℕ → ℂ) {c : ℝ} (hc : 0 < c)
     exact mul_left_cancel₀ hcc this
 
 
+/-- **partial coherence ≤ 1 for the Welch estimate** of three real channels x, y, r of equal length (every bin,
+    any window / NFFT / step), with the cross-spectra as `coherence_partial` passes them: f_xr and
+    f_ry = conj f_yr -/
+theorem welch_partial_le_one (w xi xj xr : List ℝ) {Fs : ℝ} (hFs : 0 < Fs) (N step k : ℕ) (hW : 0 < W w N)
+    (hj : xj.length = xi.length) (hr : xr.length = xi.length)
+    (hP : 0 < ∑ s ∈ range (nSeg xi.length N step), Complex.normSq (F w xi N step k s))
+    (hQ : 0 < ∑ s ∈ range (nSeg xi.length N step), Complex.normSq (F w xj N step k s))
+    (hR : 0 < ∑ s ∈ range (nSeg xi.length N step), Complex.normSq (F w xr N step k s))
+    (h1 : Complex.normSq (∑ s ∈ range (nSeg xi.length N step), F w xi N step k s * conj (F w xr N step k s))
+        ≠ (∑ s ∈ range (nSeg xi.length N step), Complex.normSq (F w xi N step k s))
+          * (∑ s ∈ range (nSeg xi.length N step), Complex.normSq (F w xr N step k s)))
+    (h2 : Complex.normSq (∑ s ∈ range (nSeg xi.length N step), F w xj N step k s * conj (F w xr N step k s))
+        ≠ (∑ s ∈ range (nSeg xi.length N step), Complex.normSq (F w xj N step k s))
+          * (∑ s ∈ range (nSeg xi.length N step), Complex.normSq (F w xr N step k s))) :
+    (coherencePartialSpec
+      (welchBin (w.map (↑)) (Fs : ℂ) N step (xi.map (↑)) (xj.map (↑)) k)
+      (welchBin (w.map (↑)) (Fs : ℂ) N step (xi.map (↑)) (xi.map (↑)) k)
+      (welchBin (w.map (↑)) (Fs : ℂ) N step (xj.map (↑)) (xj.map (↑)) k)
+      (welchBin (w.map (↑)) (Fs : ℂ) N step (xi.map (↑)) (xr.map (↑)) k)
+      (conj (welchBin (w.map (↑)) (Fs : ℂ) N step (xj.map (↑)) (xr.map (↑)) k))
+      (welchBin (w.map (↑)) (Fs : ℂ) N step (xr.map (↑)) (xr.map (↑)) k)).re ≤ 1 := by
+  have hc : 0 < cW w Fs N step xi.length k := by
+    unfold cW
+    have : (0 : ℝ) < (nSeg xi.length N step : ℝ) := by
+      have : 1 ≤ nSeg xi.length N step := by unfold nSeg; exact Nat.le_add_left 1 _
+      exact_mod_cast this
+    exact div_pos (div_pos (div_pos (osR_pos N k) this) hFs) hW
+  rw [welchBin_self w xi, welchBin_self w xj, welchBin_self w xr, welchBin_eq w xi xj, welchBin_eq w xi xr,
+    welchBin_eq w xj xr, hj, hr]
+  exact partial_le_one _ _ _ _ hc hP hQ hR h1 h2
+
+
 /-! ### multitaper coherence (MTCoherenceAnalyzer) -/
 
 theorem mtW2_eq (w : List (List ℂ)) (nt k : ℕ) :
